@@ -67,14 +67,43 @@ def row_roots(site, env):
     return roots
 
 
+PREPARATION_ENTRY = [
+    "batchie.cli.prepare_retrospective_simulation.main",
+    "batchie.core.RetrospectivePlateGenerator.generate_plates", "batchie.core.RetrospectivePlateSmoother.smooth_plates",
+    "batchie.core.InitialRetrospectivePlateGenerator.generate_and_unmask_initial_plate",
+    "batchie.data.filter_dataset_to_treatments_that_appear_in_at_least_one_combo",
+]
+
+
 def r1(ctx):
+    R, T = ctx.R, ctx.T
     sites = common.screen_sites(ctx)
     ctx.need(len(sites) >= 10, f"only {len(sites)} Screen(...) construction sites found")
+    for q in LIFECYCLE_ENTRY + PREPARATION_ENTRY:
+        ctx.fn(q)
+    life = T.reachable(list(LIFECYCLE_ENTRY))
+    # preparation closure: everything the preparation command reaches that is NOT a lifecycle operation
+    # (the command itself finishes with the hold-out split, mask_screen and reveal_plates, which are lifecycle)
+    prep_roots = list(PREPARATION_ENTRY)
+    for base, meth in (("batchie.core.RetrospectivePlateGenerator", "_generate_plates"), ("batchie.core.RetrospectivePlateSmoother", "_smooth_plates"),
+                       ("batchie.core.InitialRetrospectivePlateGenerator", "_generate_and_unmask_initial_plate")):
+        prep_roots += R.overrides(base, meth)
+    prep = T.reachable(prep_roots)
+    ctx.functions.update(life)
+    ctx.functions.update(prep)
     for s in sites:
         ctx.functions.add(s.f.qname)
-        if s.f.qname in PREPARATION:
-            ctx.ok("R1", s.site, "tabled preparation site (may re-encode): " + PREPARATION[s.f.qname])
+        in_life = s.f.qname in life
+        if not in_life and (s.f.qname in prep or s.f.qname in PREPARATION):
+            why = PREPARATION.get(s.f.qname, "only reachable from the preparation entry points (runs before the split)")
+            ctx.ok("R1", s.site, "preparation site (may re-encode): " + why)
             continue
+        if in_life and s.f.qname in PREPARATION:
+            chain = " <- ".join(R.funcs[x].site() for x in T.chain(life, s.f.qname))
+            ctx.bad("R1", f"reach::{s.f.site()}", "a lifecycle entry point reaches a re-encoding Screen construction: " + chain)
+            continue
+        if s.opaque:
+            raise AnalysisError(f"{s.site}: Screen(**kwargs) cannot be expanded; which mappings it passes is undecided")
         env = common.local_env(s.f)
         roots = row_roots(s, env)
         missing = [k for k in common.MAP_KW if k not in s.kw or (isinstance(s.kw[k], ast.Constant) and s.kw[k].value is None)]
@@ -90,8 +119,9 @@ def r1(ctx):
                 if roots and p[1] not in roots:
                     problems.append(f"{k} comes from `{p[1]}` but the rows come from {sorted(roots)}")
             elif p[0] == "fresh" and s.f.qname == "batchie.data.Screen.load_h5":
-                # stored mapping: a tuple of h5 reads
                 e = s.kw[k]
+                if isinstance(e, ast.Call) and common.h5_read_key(e) is None and (common.attr_tail(e) or "") in {fn.name for fn in R.funcs.values()}:
+                    raise AnalysisError(f"{s.site}: `{k}` is restored through the helper call `{U(e)[:60]}`; which datasets it reads is undecided")
                 ok = isinstance(e, ast.Tuple) and all(common.h5_read_key(x) is not None for x in e.elts)
                 if not ok:
                     problems.append(f"{k} is not the stored mapping read from the file: {U(e)[:80]}")
@@ -101,26 +131,13 @@ def r1(ctx):
             ctx.bad("R1", s.site, "; ".join(problems))
         else:
             ctx.ok("R1", s.site, "passes both mappings of the root its rows come from", rows_from=sorted(roots))
-    # reachability: lifecycle entry points never reach a re-encoding site
-    roots = [q for q in LIFECYCLE_ENTRY]
-    for q in roots:
-        ctx.fn(q)
-    parent = ctx.T.reachable(roots)
-    ctx.functions.update(parent)
-    reenc = set(PREPARATION)
-    for q in sorted(reenc):
-        if q not in ctx.R.funcs:
-            raise AnalysisError(f"tabled preparation site vanished: {q}")
-    hit = sorted(q for q in parent if q in reenc)
-    if hit:
-        for q in hit:
-            ctx.bad("R1", f"reach::{ctx.R.funcs[q].site()}",
-                    "a lifecycle entry point reaches a re-encoding Screen construction: " +
-                    " <- ".join(ctx.R.funcs[x].site() for x in ctx.T.chain(parent, q)))
-    else:
-        ctx.ok("R1", "reach::lifecycle-entry-points", f"{len(parent)} functions reachable from {len(roots)} lifecycle "
-                                                      f"entry points; none is a re-encoding site",
-               entry_points=len(roots), reachable=len(parent))
+    for q in sorted(PREPARATION):
+        if q not in R.funcs:
+            raise AnalysisError(f"tabled re-encoding site vanished: {q}")
+    hit = sorted(q for q in life if q in PREPARATION)
+    if not hit:
+        ctx.ok("R1", "reach::lifecycle-entry-points", f"{len(life)} functions reachable from {len(LIFECYCLE_ENTRY)} lifecycle entry points; "
+                                                      f"none is a re-encoding site", entry_points=len(LIFECYCLE_ENTRY), reachable=len(life))
 
 
 ID_SCOPE_MODULES = ["batchie.retrospective", "batchie.core", "batchie.data", "batchie.scoring.main",
